@@ -266,8 +266,8 @@ def c14(hist, stats=None):
             entered = any(s <= pseq for s, _ in h.enters)
             fin = None
             for s, _, k in h.exits:
-                if k in ('ret', 'exc', 'cexc') and s <= pseq:
-                    fin = 'exc' if k == 'cexc' else k
+                if k in ('ret', 'exc', 'cexc', 'cret') and s <= pseq:
+                    fin = {'cexc': 'exc', 'cret': 'ret'}.get(k, k)
                     break
             cancelled = any(k == 'cancelled' and s <= pseq
                             for s, _, k in h.exits)
@@ -293,7 +293,8 @@ def c14(hist, stats=None):
             # unfinished: it must never be reported done
             asked = [s for s, _ in h.cancel_req if s <= pseq]
             if done and asked and not any(
-                    (k in ('ret', 'exc') and s < asked[0]) or k == 'cexc'
+                    (k in ('ret', 'exc') and s < asked[0])
+                    or k in ('cexc', 'cret')
                     for s, _, k in h.exits):
                 bad('cancelled-reported-done',
                     "cancellation was requested (seq {}) before the body "
@@ -791,6 +792,19 @@ def c08(hist, stats=None):
                 if hist.parents[sid] is not None:
                     stats['nested_timeouts_fired'] = \
                         stats.get('nested_timeouts_fired', 0) + 1
+        # a scheduler holding forever jobs only: there is no "last regular
+        # job", but the timeout clause still applies - if no job at all has
+        # ended by the expiry the run is not over, so it must time out
+        if sr.degenerate and sr.over is not None and sr.over[2] != 'cancelled' \
+                and sr.exp_t not in (None, INF) and sr.verdict == 'success' \
+                and not any(t <= sr.exp_t for mh in sr.mh
+                            for _, t, _ in mh.exits) \
+                and sr.over[1] >= sr.exp_t:
+            out.append(Violation(
+                'C08', 'expiry-ignored', _site(sr) + '-forever-only',
+                "{} holds forever jobs only, none had ended when its timeout "
+                "expired at t={}, yet it reported success".format(
+                    sid, sr.exp_t)))
         # the run is not over T seconds after it began => it must be closing
         # with the timeout verdict (or another trigger came first)
         if sr.over is not None and sr.exp_t not in (None, INF) \
